@@ -302,33 +302,36 @@ def summary(fn, norm, calls_pred=None, ctx=None, cut=False):
                     for v in alts(t_):
                         out["vardefs"].add("$%s := %s" % (n_, norm.s(v)))
     for at in (atoms(fn, ctx, cut=cut) if (ctx or cut) else atoms(fn)):
-        c = at.cond()
-        if c is None:
-            base = norm.s(at.term)
-        else:
-            op, a, b = c
-            a_s, b_s = norm.s(a), norm.s(b)
-            if op in ("Gt", "Ge"):
-                op = {"Gt": "Lt", "Ge": "Le"}[op]
-                a_s, b_s = b_s, a_s
-            if op in ("Eq", "Ne") and b_s < a_s:
-                a_s, b_s = b_s, a_s
-            base = "%s %s %s" % (a_s, op, b_s)
+        cj = at.conjuncts()
+        # `!(lo..=hi).contains(&x) => fail` is the pair of refusals x < lo => fail, x > hi => fail
+        conds = cj if (len(cj) == 2 and at.false_fail and not at.true_fail) else [at.cond()]
+        for c in conds:
+            if c is None:
+                base = norm.s(at.term)
+            else:
+                op, a, b = c
+                a_s, b_s = norm.s(a), norm.s(b)
+                if op in ("Gt", "Ge"):
+                    op = {"Gt": "Lt", "Ge": "Le"}[op]
+                    a_s, b_s = b_s, a_s
+                if op in ("Eq", "Ne") and b_s < a_s:
+                    a_s, b_s = b_s, a_s
+                base = "%s %s %s" % (a_s, op, b_s)
 
-        def side(fail, codes, ret):
-            if fail:
-                return "fail(%s)" % ",".join(sorted(codes))
-            if ret and all(r[0] == "const" for r in ret):
-                return "ret(%s)" % ",".join(str(r[1]) for r in sorted(ret))
-            return "cont"
-        st, sf = side(at.true_fail, at.true_codes, at.true_ret), side(at.false_fail, at.false_codes, at.false_ret)
-        if c is not None:
-            # one canonical member of each complement pair: `a != b ? X : Y` is `a == b ? Y : X`; `a < b` is `!(b <= a)`
-            if op == "Ne":
-                base, st, sf = "%s Eq %s" % (a_s, b_s), sf, st
-            elif op in ("Lt", "Le") and b_s < a_s:
-                base, st, sf = "%s %s %s" % (b_s, "Le" if op == "Lt" else "Lt", a_s), sf, st
-        out["atoms"].add("%s => true:%s false:%s" % (base, st, sf))
+            def side(fail, codes, ret):
+                if fail:
+                    return "fail(%s)" % ",".join(sorted(codes))
+                if ret and all(r[0] == "const" for r in ret):
+                    return "ret(%s)" % ",".join(str(r[1]) for r in sorted(ret))
+                return "cont"
+            st, sf = side(at.true_fail, at.true_codes, at.true_ret), side(at.false_fail, at.false_codes, at.false_ret)
+            if c is not None:
+                # one canonical member of each complement pair: `a != b ? X : Y` is `a == b ? Y : X`; `a < b` is `!(b <= a)`
+                if op == "Ne":
+                    base, st, sf = "%s Eq %s" % (a_s, b_s), sf, st
+                elif op in ("Lt", "Le") and b_s < a_s:
+                    base, st, sf = "%s %s %s" % (b_s, "Le" if op == "Lt" else "Lt", a_s), sf, st
+            out["atoms"].add("%s => true:%s false:%s" % (base, st, sf))
     for bi, t in fn.calls():
         if fn.blocks[bi]["c"]:
             continue
